@@ -280,6 +280,14 @@ def check(case, rec):
                     sw = sw[:1] + [True] + sw[2:]
                 arrs = {'peaks': centre if sw[1] else None, 'troughs': side if sw[2] else None,
                         'rises': rises if sw[3] else None, 'decays': decays if sw[4] else None}
+                if case.get('dup_points'):
+                    # cyclepoint arrays as they come out of a table without de-duplication (every inner side extremum is the last
+                    # one of a cycle and the next one of its neighbour) or from overlapping selections
+                    last_, next_ = df[nm['last']].values.astype(int), df[nm['next']].values.astype(int)
+                    if arrs['troughs'] is not None:
+                        arrs['troughs'] = np.concatenate([last_, next_])
+                    if arrs['peaks'] is not None and case['dup_points'] % 2:
+                        arrs['peaks'] = np.concatenate([centre, centre[::2]])
                 extra_kw = {}
                 n_series = int(sw[0]) + sum(v is not None for v in arrs.values())
                 if case.get('colors'):
@@ -382,7 +390,7 @@ def strategy(draw, tier):
             'plot_only_result': draw(st.sampled_from([True, True, True, False])) if second else draw(st.booleans()),
             'interp': draw(st.booleans()), 'param': draw(st.sampled_from(['monotonicity', 'amp_consistency', 'period_consistency', 'amp_fraction', 'burst_fraction'])),
             'thresh': draw(st.sampled_from([0.0, 0.3, 0.5, 0.8, 1.0])), 'th_order': draw(st.sampled_from([0, 0, 1, 2])),
-            'second_drawing': second, 'np_flags': draw(st.sampled_from([0, 0, 1, 2, 3])), 'colors': draw(st.one_of(st.just(0), st.integers(1, 8))), 'recompute_first': draw(st.integers(0, 3)), 'epoch': draw(st.one_of(st.just(0), st.just(0), st.integers(1, 30))), 'row_subset': draw(st.one_of(st.just(0), st.just(0), st.integers(1, 4094)))}
+            'second_drawing': second, 'dup_points': draw(st.sampled_from([0, 0, 1, 2])), 'np_flags': draw(st.sampled_from([0, 0, 1, 2, 3])), 'colors': draw(st.one_of(st.just(0), st.integers(1, 8))), 'recompute_first': draw(st.integers(0, 3)), 'epoch': draw(st.one_of(st.just(0), st.just(0), st.integers(1, 30))), 'row_subset': draw(st.one_of(st.just(0), st.just(0), st.integers(1, 4094)))}
 
 
 PARTS = [Part('figures', check, strategy=strategy, budget={'quick': 640, 'thorough': 12000}, shards={'quick': 16, 'thorough': 16},
